@@ -80,8 +80,11 @@ def chain(draw, cid="A", nmin=1, nmax=6, wild=False, hyd=None, variants=0.2, sta
     return d
 
 
-def contact(wild=False):
+def contact(wild=False, tip=False):
     gap = fl(2.2, 3.0) if wild else fl(2.9, 3.6)
+    if tip:
+        return st.fixed_dictionaries(dict(target=st.integers(0, 10_000), dir=unit_dir(), gap=fl(1.2, 2.4),
+                                          tip=st.sampled_from([True, True, "dropped"])))
     return st.fixed_dictionaries(
         dict(target=st.integers(0, 10_000), dir=unit_dir(), gap=gap)
     )
@@ -91,3 +94,24 @@ def water():
     return st.fixed_dictionaries(
         dict(anchor=st.integers(0, 10_000), dir=unit_dir(), d=fl(2.7, 3.3))
     )
+
+
+def add_insertion_codes(draw, ch):
+    """Give a chain runs of equal residue numbers distinguished by insertion codes ('', A, B ...).
+    Half of the inserted residues repeat the NAME of their predecessor (SER 20, SER 20A): number
+    and name equal, only the code differs."""
+    n = len(ch["seq"])
+    nums, codes, k = [], [], 0
+    for i in range(n):
+        if i > 0 and draw(st.booleans()):
+            k += 1
+            nums.append(nums[-1])
+            codes.append("ABCDE"[min(k - 1, 4)])
+            if draw(st.booleans()) and ch["seq"][i - 1] != "PRO":
+                ch["seq"][i] = ch["seq"][i - 1]
+        else:
+            k = 0
+            nums.append((nums[-1] + 1) if nums else ch["start"])
+            codes.append(" ")
+    ch["nums"], ch["icodes"] = nums, codes
+    return ch
